@@ -370,20 +370,31 @@ def evaluate_compute(ctx, cases):
                 if order != list(range(len(sizes))):
                     ex["compute_runs_with_completion_order_different_from_submission_order"] += 1
                     by_jobs[str(c["n_jobs"])] = by_jobs.get(str(c["n_jobs"]), 0) + 1
-                ceils = float_ceils(n, ns or 4 * c["n_jobs"], cs)
-                lines.append("pm %d %d %d %s %d %s" % (n, predicted, len(ceils), " ".join(hx(x) for x in ceils), len(order), " ".join(map(str, order))))
-                pend.append((c, sizes, order))
+                if cs is not None and ns is None and cs == max(1, -(-n // (4 * c["n_jobs"]))):
+                    # the call as it is now: integer chunk size computed by koala; the model computes it itself
+                    lines.append("kp %d %s %d %s" % (n, hx(c["n_jobs"]), len(order), " ".join(map(str, order))))
+                    pend.append((c, sizes, order, int(cs), predicted))
+                else:
+                    ceils = float_ceils(n, ns or 4 * c["n_jobs"], cs)
+                    lines.append("pm %d %d %d %s %d %s" % (n, predicted, len(ceils), " ".join(hx(x) for x in ceils), len(order), " ".join(map(str, order))))
+                    pend.append((c, sizes, order, None, predicted))
             else:
                 res.skip("worker-log-incomplete")
                 if len(log) != n:
                     ex["worker_log_lengths_unexpected"] = ex.get("worker_log_lengths_unexpected", 0) + 1
         res.sample({"compute": c, "points": n, "chunks": len(sizes), "result_shape": list(data.shape)}, cap=8)
     outs = run_driver_parallel(ctx.exe["c20"], lines)
-    for (c, sizes, order), o in zip(pend, outs):
+    for (c, sizes, order, cs, predicted), o in zip(pend, outs):
         if "error" in o:
             raise RuntimeError(f"c20 driver error {o['error']}")
         ms = [int(x) for x in o["sizes"][1:]]
-        if ms != sizes:
+        if cs is not None and o["chunk_size"] != [str(cs)]:
+            raise RuntimeError(f"harness and model disagree on koala_chunk_size: {o['chunk_size']} vs {cs}")
+        if cs is not None and o["predicted"] != [str(predicted)]:
+            ctx.k_mismatch(f"announced number of chunks: model {o['predicted'][0]}, mpire {predicted} (chunk size {cs})", c)
+        elif o["raises"] != ["0"]:
+            ctx.k_mismatch("the model raises (announced number of chunks differs from the number produced) but the implementation returned", c)
+        elif ms != sizes:
             ctx.k_mismatch(f"chunk sizes differ: model {ms[:10]} mpire {sizes[:10]}", c)
         elif o["result"] != o["serial"] or [int(x) for x in o["delivered"][1:]] != order:
             ctx.k_mismatch(f"model parallel map on the observed completion order {order[:10]} does not return the serial order", c)
@@ -405,6 +416,17 @@ def evaluate_chunk_count_scan(ctx, confirm):
                 ceils = float_ceils(n, 4 * j)
                 combos.append((scheme, s, n, j, predicted, len(chs)))
                 lines.append("pm %d %d %d %s %d %s" % (n, predicted, len(ceils), " ".join(hx(x) for x in ceils), len(chs), " ".join(map(str, range(len(chs))))))
+    # the call as it is now (integer chunk size computed by the model itself): chunk sizes and announced number
+    # of chunks against mpire's for that chunk size
+    klines = ["kp %d %s 0" % (n, hx(j)) for (_, _, n, j, _, _) in combos]
+    kouts = run_driver_parallel(ctx.exe["c20"], klines)
+    for (scheme, s, n, j, _, _), o in zip(combos, kouts):
+        cs = int(o["chunk_size"][0])
+        chs, pred = mpire_chunks(np.zeros((n, 3)), j, with_predicted=True, chunk_size=cs)
+        if [int(x) for x in o["sizes"][1:]] != [len(ch) for ch in chs] or o["predicted"] != [str(pred)] or o["raises"] != ["0"] or pred != len(chs):
+            ctx.k_mismatch(f"{scheme} samples={s} n_jobs={j}, chunk_size={cs}: model sizes/announced {o['sizes'][:8]}/{o['predicted']} vs mpire {[len(ch) for ch in chs][:8]}/{pred}", {"kind": "compute", "scheme": scheme, "s": s, "func": "scalar", "n_jobs": j})
+        else:
+            res.traces += 1
     outs = run_driver_parallel(ctx.exe["c20"], lines)
     badc = []
     for (scheme, s, n, j, predicted, actual), o in zip(combos, outs):
@@ -417,7 +439,7 @@ def evaluate_chunk_count_scan(ctx, confirm):
         if predicted != actual:
             badc.append({"kind": "compute", "scheme": scheme, "s": s, "func": "scalar", "n_jobs": j})
     res.extra["combinations_scanned_for_chunk_count"] = len(combos)
-    res.extra["combinations_where_mpire_announces_a_wrong_chunk_count"] = [[c["scheme"], c["s"], c["n_jobs"]] for c in badc]
+    res.extra["combinations_where_mpire_default_chunking_announces_a_wrong_chunk_count"] = [[c["scheme"], c["s"], c["n_jobs"]] for c in badc]
     if badc:
         evaluate_compute(ctx, badc[:confirm])
 
